@@ -1182,6 +1182,10 @@ class Model:
         if intercept_idx != -1:
             common_terms.insert(0, common_terms.pop(intercept_idx))
 
+        # The redundancy analysis assumes the spaces of lower order terms are seen before the ones
+        # of the interactions that contain them, no matter the order the terms are written.
+        common_terms.sort(key=lambda term: len(term.components) if isinstance(term, Term) else 0)
+
         for term in common_terms:
             if term.kind == "interaction":
                 components[term.name] = {c.name: c.kind for c in term.components}
